@@ -2,7 +2,7 @@
 From Coq Require Import Sorting.Permutation.
 From CKC Require Import Base.Prelude Base.Reflect Base.SortN Spec.Layout Spec.Poker.
 From CKC Require Import Model.Card Model.Hands Model.Five.
-From CKC Require Import Proofs.CardFacts Proofs.SortFacts Proofs.BitFacts Proofs.FiveFacts Proofs.PokerFacts
+From CKC Require Import Proofs.CardBase Proofs.SortFacts Proofs.BitFacts Proofs.FiveFacts Proofs.PokerFacts
   Proofs.RankedFacts Proofs.ShapeFacts Proofs.HandFacts.
 From CKC Require Import Gen.Consts.
 Open Scope N_scope.
